@@ -45,12 +45,17 @@ type Cluster struct {
 	Spec    plan.ClusterSpec
 	Members []*Member // index = member idx; restarted members replace the slot
 	LogW    io.Writer
+	// Strict demands fully handed-over partitions (one primary owner, exactly the wanted backups).
+	Strict   bool
+	// Quiet, when larger than the default, is how long the routing view must stay unchanged.
+	Quiet time.Duration
+	lastView string
 }
 
 func New(k *simrt.Kernel, n *simnet.Net, spec plan.ClusterSpec) *Cluster {
 	var w io.Writer = io.Discard
 	if os.Getenv("VERIF_LOG") != "" {
-		w = os.Stderr
+		w = &stampWriter{k: k}
 	}
 	return &Cluster{K: k, N: n, Spec: spec, LogW: w}
 }
@@ -261,7 +266,9 @@ func (c *Cluster) Leave(idx int) error {
 	ctx, cancel := context.WithTimeout(context.Background(), 10*time.Second)
 	defer cancel()
 	err := m.DB.Shutdown(ctx)
-	// anything still registered under this node is gone now
+	// Let what the member sent before it stopped (leave broadcast, connection closes)
+	// reach its peers, then retire whatever is still registered under this node.
+	time.Sleep(2*c.N.Cfg.MaxLat + time.Millisecond)
 	c.N.CrashNode(m.Node, true)
 	return err
 }
@@ -358,7 +365,10 @@ func (c *Cluster) Stable() (bool, string) {
 		return false, "routing table incomplete"
 	}
 	for id, r := range rt {
-		if len(r.PrimaryOwners) != 1 {
+		if len(r.PrimaryOwners) < 1 {
+			return false, fmt.Sprintf("part %d has no primary owner", id)
+		}
+		if c.Strict && len(r.PrimaryOwners) != 1 {
 			return false, fmt.Sprintf("part %d has %d primary owners", id, len(r.PrimaryOwners))
 		}
 		for _, o := range r.PrimaryOwners {
@@ -366,7 +376,7 @@ func (c *Cluster) Stable() (bool, string) {
 				return false, fmt.Sprintf("part %d primary owner %s not running", id, o)
 			}
 		}
-		if len(r.ReplicaOwners) != wantBackups {
+		if len(r.ReplicaOwners) < wantBackups || (c.Strict && len(r.ReplicaOwners) != wantBackups) {
 			return false, fmt.Sprintf("part %d has %d backups, want %d", id, len(r.ReplicaOwners), wantBackups)
 		}
 		for _, o := range r.ReplicaOwners {
@@ -375,6 +385,7 @@ func (c *Cluster) Stable() (bool, string) {
 			}
 		}
 	}
+	c.lastView = first
 	return true, ""
 }
 
@@ -389,13 +400,37 @@ func (c *Cluster) partitions() uint64 {
 func (c *Cluster) WaitStable(bound, every time.Duration) (time.Duration, error) {
 	start := c.K.Now()
 	var why string
+	// the criterion must hold, with an unchanged routing view, for a quiet window
+	quiet := 3*ms(c.Spec.BalancerMs) + 200*time.Millisecond
+	if c.Quiet > quiet {
+		quiet = c.Quiet
+	}
+	var since time.Duration = -1
+	var view string
 	for c.K.Now()-start <= bound {
 		ok, w := c.Stable()
-		if ok {
+		if ok && (since < 0 || c.lastView != view) {
+			since, view = c.K.Now(), c.lastView
+		}
+		if !ok {
+			since = -1
+		}
+		if ok && c.K.Now()-since >= quiet {
 			return c.K.Now() - start, nil
+		}
+		if ok {
+			w = "routing view still changing"
 		}
 		why = w
 		time.Sleep(every)
 	}
 	return c.K.Now() - start, fmt.Errorf("not stable after %v: %s", bound, why)
+}
+
+// stampWriter prefixes every log line with the simulated time (debugging aid).
+type stampWriter struct{ k *simrt.Kernel }
+
+func (w *stampWriter) Write(b []byte) (int, error) {
+	fmt.Fprintf(os.Stderr, "%10.4f %s", w.k.Now().Seconds(), b)
+	return len(b), nil
 }
